@@ -42,7 +42,7 @@ def main(tier, seed):
     else:
         fam = E.family_shapes()
         shapes = E.curated_shapes() + fam
-        p = dict(nops=4, maxdev=2, bfs_depth=7, probe_every=11, timing_depth=30, light_names=[s["name"] for s in fam], light_nops=3, light_bfs=5)
+        p = dict(nops=4, maxdev=2, bfs_depth=8, probe_every=11, timing_depth=30, light_names=[s["name"] for s in fam], light_nops=3, light_bfs=3, light_timing=8)
     sigs = sig_shapes() + mixed_shapes()
     return E.run_check(PID, tier, seed, shapes=shapes + sigs, sig_names={s["name"] for s in sigs}, **p)
 
